@@ -76,7 +76,10 @@ func main() {
 				}
 			}
 			writeJSON(*out, res)
-		case "seq":
+		case "seq", "seqc":
+			if *kind == "seqc" {
+				rt.SetMode(rt.Controlled)
+			}
 			res := runSeq(*prop, *tier, *name, *shard, *nshards, time.Duration(*budget)*time.Second)
 			writeJSON(*out, res)
 		case "race":
@@ -109,6 +112,9 @@ func main() {
 
 func replayFile(v *Violation) int {
 	if len(v.Ops) > 0 || v.Params["engine"] == "seq" {
+		if j := findSeqJob(v.Property, v.Params["tier"], v.Scenario); j != nil && j.Controlled {
+			rt.SetMode(rt.Controlled)
+		}
 		return replaySeq(v)
 	}
 	sc := findScenario(v.Property, v.Params["tier"], v.Scenario)
